@@ -2,7 +2,7 @@
    assembled from the per-rule theorems. *)
 From Coq Require Import List Arith Lia Bool String NArith.
 From GQL Require Import Exec.Syntax Validate.VSyntax Validate.Overlap Validate.OverlapSpec Validate.Rules Validate.All
-     Proofs.ValidateRules Proofs.ValidateInputFields Proofs.ValidateCycles Proofs.ValidateUnused Proofs.ValidateMemo.
+     Proofs.ValidateRules Proofs.ValidateInputFields Proofs.ValidateCycles Proofs.ValidateCyclesComplete Proofs.ValidateUnused Proofs.ValidateMemo.
 Import ListNotations.
 Open Scope N_scope.
 
@@ -53,14 +53,14 @@ Qed.
 
 (* The exceptions, as hypotheses:
    - the closure iteration of RecursivelyReferencedFragments did not fall short (executable test);
-   - NoFragmentCycles: the DFS reports every cycle (its soundness is proved, its completeness
-     is checked by the differential only);
+   - fragment names are unique (UniqueFragmentNames; with duplicate names the DFS of
+     NoFragmentCycles, which marks names, can miss a cycle through a shadowed definition);
    - overlap: the document is acyclic, and the memoised algorithm's acceptance implies L1
      (proved: L1 => accepts; L3 accepts => unmemoised accepts; the reflection of the
      unmemoised executable algorithm into the Prop-level decomposition is not proved). *)
 Theorem accept_iff : forall fuel S W,
   closures_stable W = true ->
-  (Violates_no_fragment_cycles W -> rule_no_fragment_cycles W <> []) ->
+  NoDup (map wf_name (w_frags W)) ->
   acyclic S (erase W) ->
   (run_overlap S (erase W) true fuel = [] -> L1_accepts S (erase W)) ->
   (validate_model fuel S W = [] <-> forall r, ~ Violates r S W).
@@ -78,7 +78,7 @@ Proof.
     - apply nil_iff. apply known_fragment_names_iff.
     - apply nil_iff. apply known_type_names_iff.
     - apply nil_iff. apply lone_anonymous_iff.
-    - apply nil_iff. split; [apply no_fragment_cycles_sound | exact Hcyc].
+    - apply nil_iff. apply no_fragment_cycles_iff. exact Hcyc.
     - apply nil_iff. apply no_undefined_variables_iff.
     - apply nil_iff. apply no_unused_fragments_iff. exact Hst.
     - apply nil_iff. apply no_unused_variables_iff.
